@@ -171,9 +171,13 @@ Section Exec.
       emit s [match depth with O => EvStart from to create input gas (match value with Some v => v | None => 0 end)
               | _ => EvEnter kind from to input gas value end]
     else s.
+  (** `startGas - gas` on uint64 operands in the deferred CaptureEnd/CaptureExit: wraps around if the frame's gas variable ended
+      above what the frame was given (only an Aspect reporting more gas than it received can cause that: Exec_gas.v) *)
+  Definition used64 (start_gas gas_var : N) : N :=
+    if gas_var <=? start_gas then start_gas - gas_var else u64 (start_gas + two64 - gas_var).
   Definition dbg_close (s : xstate) (depth : nat) (r : cres) (start_gas gas_var : N) : xstate :=
-    if debug then emit s [match depth with O => EvEnd (r_ret r) (start_gas - gas_var) (r_err r)
-                          | _ => EvExit (r_ret r) (start_gas - gas_var) (r_err r) end]
+    if debug then emit s [match depth with O => EvEnd (r_ret r) (used64 start_gas gas_var) (r_err r)
+                          | _ => EvExit (r_ret r) (used64 start_gas gas_var) (r_err r) end]
     else s.
 
 
